@@ -20,7 +20,7 @@ def cmdTrack (t : Track) : Cmd → Track
   | .rest d => t.addRest (UInt16.ofNat (durVal t d).toNat)
   | .tie d => t.addTie (UInt16.ofNat (durVal t d).toNat)
   | .length d => t.setDuration (UInt16.ofNat (durVal t d).toNat)
-  | .octave n => t.setOctave (n.v + -1)
+  | .octave n => t.setOctave (wrapS32 (n.v - 1))
   | .octUp => t.changeOctave 1
   | .octDown => t.changeOctave (-1)
   | .quantize n => (t.setQuantize (u16 n.v) (UInt16.ofNat trackSetQuantizeDefaultParts)).1
@@ -38,15 +38,18 @@ def cmdSkip : Cmd → List Nat → Nat
   | .length d, tail => durSkip d tail
   | _, _ => 0
 
-/-- conditions on the numbers of a command, on the track it is applied to -/
+/-- conditions on the numbers of a command, on the track it is applied to: every written number
+is an `int` (`NumRange`), a length is at least 1, a frame count at least 0, and `&` finds its
+note.  (Since fixes a16b488 / a22a11c no "does not overflow" condition is left: `o`, `<`, `>`,
+dotted durations and the note number wrap or are computed in a wider type.) -/
 def CmdNums (t : Track) : Cmd → Prop
-  | .note l a d => DurNums t d ∧ t.opUB (.addNote (noteVal t l a) (UInt16.ofNat (durVal t d).toNat)) = false
-  | .rest d => DurNums t d
-  | .tie d => DurNums t d
-  | .length d => DurNums t d
-  | .octave n => NumRange n ∧ -2147483647 ≤ n.v
-  | .octUp => inInt32 (t.octave + 1) = true
-  | .octDown => inInt32 (t.octave + -1) = true
+  | .note _ _ d => DurNums d
+  | .rest d => DurNums d
+  | .tie d => DurNums d
+  | .length d => DurNums d
+  | .octave n => NumRange n
+  | .octUp => True
+  | .octDown => True
   | .quantize n => NumRange n
   | .early n => NumRange n
   | .measure n => NumRange n
@@ -75,7 +78,7 @@ theorem cmd_span (s : MmlState) (hs : Sane s) (cmd : Cmd) (tail : List Nat) (hc 
   | note l a d =>
     have := note_span s hs l hc a d tail (by
       have : MmlMeaning.letterByte l = 97 + l := by unfold MmlMeaning.letterByte; rw [Nat.mod_eq_of_lt hc]
-      simpa [Cmd.bytes, this] using hsuf) hn.1 ht.1 ht.2 hn.2
+      simpa [Cmd.bytes, this] using hsuf) hn ht.1 ht.2
     rw [this]
     simp only [cmdTrack, cmdSkip, Cmd.bytes, List.length_cons, List.length_append]
     congr 2; omega
@@ -89,13 +92,13 @@ theorem cmd_span (s : MmlState) (hs : Sane s) (cmd : Cmd) (tail : List Nat) (hc 
     have := length_span s hs d tail (by simpa [Cmd.bytes] using hsuf) hn ht
     rw [this]; simp only [cmdTrack, cmdSkip, Cmd.bytes, List.length_cons]; congr 2; omega
   | octave n =>
-    have := octave_span s hs n tail (by simpa [Cmd.bytes] using hsuf) hn.1 ht hn.2
+    have := octave_span s hs n tail (by simpa [Cmd.bytes] using hsuf) hn ht
     rw [this]; simp only [cmdTrack, cmdSkip, Cmd.bytes, List.length_cons]; congr 2; omega
   | octUp =>
-    have := octUp_span s hs tail (by simpa [Cmd.bytes] using hsuf) hn
+    have := octUp_span s hs tail (by simpa [Cmd.bytes] using hsuf)
     rw [this]; simp [cmdTrack, cmdSkip, Cmd.bytes]
   | octDown =>
-    have := octDown_span s hs tail (by simpa [Cmd.bytes] using hsuf) hn
+    have := octDown_span s hs tail (by simpa [Cmd.bytes] using hsuf)
     rw [this]; simp [cmdTrack, cmdSkip, Cmd.bytes]
   | quantize n =>
     have := quantize_span s hs n tail (by simpa [Cmd.bytes] using hsuf) hn ht
@@ -243,7 +246,7 @@ theorem num_bytes_head_nonneg (n : Num) (h0 : 0 ≤ n.v) :
   · exact Or.inr (Or.inl h)
   · exact Or.inr (Or.inr h)
 
-theorem dur_head (t : Track) (d : Dur) (tail : List Nat) (hn : DurNums t d) (ht : SepTail tail) :
+theorem dur_head (d : Dur) (tail : List Nat) (hn : DurNums d) (ht : SepTail tail) :
     (d.bytes ++ tail).head? ≠ some 43 ∧ (d.bytes ++ tail).head? ≠ some 45 ∧ (d.bytes ++ tail).head? ≠ some 61 := by
   cases d with
   | dflt k =>
@@ -251,7 +254,7 @@ theorem dur_head (t : Track) (d : Dur) (tail : List Nat) (hn : DurNums t d) (ht 
     | zero => rcases ht with rfl | ⟨c, r, rfl, _⟩ <;> simp [Dur.bytes, dotsBytes]
     | succ k => simp [Dur.bytes, dotsBytes, List.replicate_succ]
   | len n k =>
-    obtain ⟨c, r, hcr, hc⟩ := num_bytes_head_nonneg n (by have := hn.2.1; omega)
+    obtain ⟨c, r, hcr, hc⟩ := num_bytes_head_nonneg n (by have := hn.2; omega)
     simp only [Dur.bytes, hcr, List.cons_append, List.head?_cons, ne_eq, Option.some.injEq]
     omega
   | frames n k => simp [Dur.bytes]
@@ -260,7 +263,7 @@ theorem cmdTail_sepTail (t : Track) (cmd : Cmd) (tail : List Nat) (hn : CmdNums 
     CmdTail cmd tail := by
   have hb : ∀ n : Num, numBase n ≤ 16 := fun n => by unfold numBase; split <;> omega
   cases cmd with
-  | note l a d => exact ⟨durTail_sepTail d tail ht, fun _ => dur_head t d tail hn.1 ht⟩
+  | note l a d => exact ⟨durTail_sepTail d tail ht, fun _ => dur_head d tail hn ht⟩
   | rest d => exact durTail_sepTail d tail ht
   | tie d => exact durTail_sepTail d tail ht
   | length d => exact durTail_sepTail d tail ht
